@@ -8,12 +8,7 @@ EQUIVALENT = {"c01e", "c04b", "c05f", "c12d", "c15b", "c19a", "c19b"}
 KILLED_BY_SUITE = set("c01a c01b c01c c01f c02c c02d c05g c06a c06b c06d c06e c07a c07b c07c c09a c11a c11b c11d c12a c12c c13b c13d c14c c15a c17c c20c".split())
 
 
-def module_of(path):
-    if path.startswith("src/"):
-        return path[4:-3].replace("/", ".")
-    if path.endswith("scripts/batchie.py"):
-        return "nextflow_script"
-    raise ValueError(path)
+from .util import module_of
 
 
 def run_mutant(m, tier="quick", jobs=4):
